@@ -17,7 +17,10 @@ def run_one(s):
     bd = r[1]
     vs = U.space_vars(e)
     sets, raw = [], {}
-    for j, (kind, n) in enumerate((("random", 16), ("grid", 12), ("grid", 7))):
+    menu = [("random", 16), ("grid", 12), ("grid", 7)]
+    if '"poly"' in __import__("json").dumps(e):      # polygon outlines: grid points that fall exactly on vertices and on the prolongation of other sides
+        menu += [("grid", 16), ("grid", 32)]
+    for j, (kind, n) in enumerate(menu):
         row = rows_for(names, 1, tid + j)[0] if names else {}
         p1 = U.mk_params(names, [row] if names else [])
         fn = bd.sample_random_uniform if kind == "random" else bd.sample_grid
